@@ -14,6 +14,8 @@ import (
 	"fmt"
 
 	"github.com/tink-crypto/tink-go/v2/aead"
+	"github.com/tink-crypto/tink-go/v2/aead/aesgcm"
+	"github.com/tink-crypto/tink-go/v2/internal/protoserialization"
 	"github.com/tink-crypto/tink-go/v2/insecurecleartextkeyset"
 	"github.com/tink-crypto/tink-go/v2/insecuresecretdataaccess"
 	"github.com/tink-crypto/tink-go/v2/jwt/jwthmac"
@@ -32,13 +34,57 @@ func unserializableKey(kind string) (key.Key, error) {
 		return jwthmac.NewKey(jwthmac.KeyOpts{KeyBytes: secretdata.NewBytesFromData(make([]byte, 32), insecuresecretdataaccess.Token{}),
 			CustomKID: "kid\xff", HasCustomKID: true, Parameters: p})
 	}
+	if len(kind) > 7 && kind[:7] == "aesgcm-" {
+		// AES-GCM parameters whose IV / tag size the proto format (key_value only) cannot express:
+		// aesgcm-<iv>-<tag>  (findings/aesgcm_sizes_lost_in_serialization, fixed by /repo fd043d0)
+		var iv, tag int
+		if _, err := fmt.Sscanf(kind[7:], "%d-%d", &iv, &tag); err != nil {
+			return nil, err
+		}
+		p, err := aesgcm.NewParameters(aesgcm.ParametersOpts{KeySizeInBytes: 16, IVSizeInBytes: iv, TagSizeInBytes: tag, Variant: aesgcm.VariantTink})
+		if err != nil {
+			return nil, err
+		}
+		return aesgcm.NewKey(secretdata.NewBytesFromData(bytes.Repeat([]byte{9}, 16), insecuresecretdataaccess.Token{}), 0x11223344, p)
+	}
 	return nil, fmt.Errorf("unknown kind %s", kind)
+}
+
+// keyLevel: SerializeKey / SerializeParameters of such an object either refuse, or what they write
+// parses back to an Equal object (never silently to a different one).
+func keyLevel(bad key.Key) string {
+	if s, err := protoserialization.SerializeKey(bad); err == nil {
+		k2, err := protoserialization.ParseKey(s)
+		if err != nil {
+			return "SerializeKey succeeded for a key the proto format cannot express and ParseKey fails on the result: " + err.Error()
+		}
+		if !k2.Equal(bad) {
+			return "SerializeKey succeeded and ParseKey gives back a DIFFERENT key (parameters changed silently)"
+		}
+	}
+	if t, err := protoserialization.SerializeParameters(bad.Parameters()); err == nil {
+		p2, err := protoserialization.ParseParameters(t)
+		if err != nil {
+			return "SerializeParameters succeeded and ParseParameters fails on the result: " + err.Error()
+		}
+		if !p2.Equal(bad.Parameters()) {
+			return "SerializeParameters succeeded and ParseParameters gives back DIFFERENT parameters"
+		}
+	}
+	return ""
 }
 
 func runUnserializable(f []string) string {
 	bad, err := unserializableKey(f[1])
 	if err != nil {
 		return "u|chk=ok" // the constructor refuses such a key: nothing to check
+	}
+	// (not for the JWT custom-kid key: that CustomKID PARAMETERS come back as IgnoredKID is the recorded
+	// known finding of C12, reported by the parameters cases with its own message)
+	if len(f[1]) > 7 && f[1][:7] == "aesgcm-" {
+		if msg := keyLevel(bad); msg != "" {
+			return "u|chk=" + msg
+		}
 	}
 	p, err := jwthmac.NewParameters(32, jwthmac.IgnoredKID, jwthmac.HS256)
 	if err != nil {
@@ -110,6 +156,13 @@ func runUnserializable(f []string) string {
 			}
 			if h2.Len() != h.Len() {
 				return fmt.Sprintf("u|chk=%s writer (json=%v) reported success but the keyset read back has %d keys, want %d", x.name, json, h2.Len(), h.Len())
+			}
+			for i := 0; i < h.Len(); i++ {
+				e1, err1 := h.Entry(i)
+				e2, err2 := h2.Entry(i)
+				if err1 != nil || err2 != nil || !e2.Key().Equal(e1.Key()) {
+					return fmt.Sprintf("u|chk=%s writer (json=%v) reported success but key %d read back is not Equal to the key written", x.name, json, i)
+				}
 			}
 		}
 	}
